@@ -116,6 +116,28 @@ def compile_props(pid):
     return r.returncode == 0, log
 
 
+def coqchk_props(pid):
+    """Re-check coq/Props/<pid>.vo and everything it depends on with the independent checker
+    coqchk (thorough tier).  Returns (ok, context-summary text)."""
+    lock = open(os.path.join(B, ".lock"), "w")
+    fcntl.flock(lock, fcntl.LOCK_SH)
+    try:
+        r = run("timeout 3000 coqchk -silent -o -Q . PQL PQL.Props.%s 2>&1" % pid, cwd=COQ)
+    finally:
+        fcntl.flock(lock, fcntl.LOCK_UN)
+        lock.close()
+    out = r.stdout
+    open(os.path.join(B, "props", pid + ".coqchk.log"), "w").write(out)
+    i = out.find("CONTEXT SUMMARY")
+    summ = " ".join(out[i:].split()) if i >= 0 else out[-1500:]
+    ok = r.returncode == 0 and i >= 0
+    for key in ("type-in-type", "unsafe (co)fixpoints", "positivity is assumed"):
+        m = re.search(re.escape(key) + r":\s*(\S+)", summ)
+        if not m or m.group(1) != "<none>":
+            ok = False
+    return ok, summ
+
+
 def theorems_of(pid):
     p = os.path.join(COQ, "Props", pid + ".v")
     if not os.path.exists(p):
@@ -355,6 +377,19 @@ def run_check(pid, tier, seed, replay=None):
         a_ok = False; a_msgs.append("only %d Print Assumptions results for %d theorems" % (len(assum), len(thms)))
     axioms = sorted(set(a for a in assum if a.startswith("Axioms")))
     discharged = len(thms) if pok else 0
+    chk_note = []
+    if tier == "thorough" and pok and a_ok:
+        cok, csum = coqchk_props(pid)
+        chk_note.append("coqchk -o PQL.Props.%s: %s" % (pid, csum))
+        if not cok:
+            a_ok = False; a_msgs.append("coqchk rejects coq/Props/%s.vo or reports a disabled check: %s" % (pid, csum[-1200:]))
+        else:
+            m = re.search(r"Axioms: (.*?) \* Constants", csum)
+            chk_ax = m.group(1).split() if m else []
+            allowed = ("Coq.Logic.FunctionalExtensionality.functional_extensionality_dep",)
+            extra = [a for a in chk_ax if a != "<none>" and a not in allowed]
+            if extra:
+                a_ok = False; a_msgs.append("coqchk lists axioms outside the trusted base: " + " ".join(extra))
     # ---- B and C
     evaluations = 0
     distinct = set()
@@ -534,7 +569,7 @@ def run_check(pid, tier, seed, replay=None):
         property_id=pid, tier=tier, seed=seed, level="proof",
         coverage=dict(
             obligations=len(thms), discharged=discharged,
-            checker_cmd="cd /verif/coq && make (full .vo build of the model and proofs) && coqc -Q . PQL Props/%s.v" % pid,
+            checker_cmd="cd /verif/coq && make (full .vo build of the model and proofs) && coqc -Q . PQL Props/%s.v" % pid + (" && coqchk -silent -o -Q . PQL PQL.Props.%s" % pid if tier == "thorough" else ""),
             trusted_base=TRUSTED_BASE + cfg.get("trusted_extra", []),
             theorems=thms, print_assumptions=assum, axioms_used=axioms,
             generated_tables=cfg.get("tables", []),
@@ -543,7 +578,7 @@ def run_check(pid, tier, seed, replay=None):
                  "an input counts as non-trivial when the implementation produced a non-empty observation other than a bare rejection for it, and as distinct by (stage, input bytes)",
             samples=samples, input_distribution=dist,
             correspondence_disagreements=len(b_breaks), oracle_failures=len(c_fails),
-            known_findings_seen=sorted(known_hits), notes=notes + a_msgs,
+            known_findings_seen=sorted(known_hits), notes=notes + a_msgs + chk_note,
             exhaustive=False),
         assumptions=cfg.get("assumptions", []),
         wall_s=round(wall, 2), violations=len(out_lines))
